@@ -14,6 +14,15 @@ func validateMaps(env *Environment, errorSink *validation.ErrorSink) *Environmen
 	}
 
 	Visit(env, func(self Visitor, node Node) {
+		if st, ok := node.(*SimpleType); ok {
+			self.VisitChildren(node)
+			if st.ResolvedDefinition != nil && len(st.ResolvedDefinition.GetDefinitionMeta().TypeArguments) > 0 {
+				// check the referenced generic type with the type arguments given here
+				self.Visit(st.ResolvedDefinition)
+			}
+			return
+		}
+
 		m, ok := node.(*Map)
 		if !ok {
 			self.VisitChildren(node)
